@@ -51,7 +51,17 @@ def builder_sim(shape):
                 describe="random call sequences (TLC -simulate) of setters followed by build(), replayed on a live builder")
 
 
+def builder_seq(shape):
+    base = dict(SHAPE='"%s"' % shape, ORDER='"code"', HIST="TRUE", SIZE='"seq"', K=99, CK=0)
+    return dict(module="MC_Builder", kind="bfs", spec="Spec", replay=["--serde"],
+                invariants=["C09_Faithful", "C09_Expected", "C04_Valid", "C03_Render", "C10_Rebuild", "EmitSeq"],
+                quick=dict(base, DEPTH=5), thorough=dict(base, DEPTH=6),
+                describe="every call sequence of length <= DEPTH over seven qualifier ops (set k, K_, ka, z; unset K, k_, ka) followed by build(): "
+                         "order of the printed qualifiers after interleaved inserts and removals")
+
+
 SUITES.update({
+    "BUILDER-SEQ": builder_seq("generic"),
     "FORMAT-1": format_suite("single", "single"),
     "FORMAT-2": format_suite("pairs", "allpairs"),
     "BUILDER-G": builder_suite("generic"),
@@ -162,11 +172,11 @@ DRIVERS = {
 }
 
 PARSE_ALL = ["PARSE-SEP", "PARSE-PATH", "PARSE-QUAL", "PARSE-TYPED", "PARSE-NS", "PARSE-SUB", "PARSE-QUALS2", "SPELL", "FAULT"]
-BUILD_ALL = ["BUILDER-G", "BUILDER-T", "BUILDER-SIM-G", "BUILDER-SIM-T"]
+BUILD_ALL = ["BUILDER-G", "BUILDER-T", "BUILDER-SIM-G", "BUILDER-SIM-T", "BUILDER-SEQ"]
 PROPS = {
     "C01": dict(suites=PARSE_ALL + ["FORMAT-1", "TYPES-NAMES", "SYSTEM-G", "SYSTEM-T"], drivers=["garbage", "corpus"]),
     "C02": dict(suites=PARSE_ALL, drivers=["corpus"]),
-    "C03": dict(suites=["FORMAT-1", "FORMAT-2", "PARSE-QUAL", "BUILDER-G"], drivers=["scalars", "builder-ops"]),
+    "C03": dict(suites=["FORMAT-1", "FORMAT-2", "PARSE-QUAL", "PARSE-QUALS2", "BUILDER-G", "BUILDER-SEQ"], drivers=["scalars", "builder-ops"]),
     "C04": dict(suites=PARSE_ALL + BUILD_ALL + ["SHAPES", "SYSTEM-G", "SYSTEM-T"], drivers=["garbage", "builder-ops"]),
     "C05": dict(suites=PARSE_ALL + ["CHECKSUM"], drivers=["corpus", "garbage"]),
     "C06": dict(suites=PARSE_ALL + ["QUAL", "QUAL-SIM", "CHECKSUM", "BUILDER-G", "BUILDER-T", "BUILDER-SIM-G", "FORMAT-1", "TYPES-LOOKUP", "TYPES-COMB", "TYPES-NAMES", "TYPES-STR", "SHAPES", "SYSTEM-T"], drivers=["garbage", "corpus", "scalars", "qual-ops", "checksum-ops", "builder-ops", "type-strings", "combined", "big"]),
